@@ -391,7 +391,7 @@ pub fn run(tier: Tier, seed: u64, replay: Option<Value>) -> i32 {
         tier,
         seed,
         "exploration",
-        "generated datasets of 1..9 keys in databases 0/1/3/15: all six value types; string lengths and element counts at {0, 1, 2, 63, 64, 65, 300, 16383, 16384, 16385, 65535, 65536, 70000} (one big value per dataset); binary / empty / 64-byte / UTF-8 elements and names, names and values equal to the internal stream marker; scores +-inf, -0.0, subnormal, 1e308, equal scores; stream IDs at u64 edges with 1..8 fields; TTL none / long / 250..2500 ms. A: load through a client, canonical dump + PTTL of every TTL key with clock brackets, SAVE (must answer OK), kill -9, generated downtime 0..1.5 s, restart on the same directory, dump again: same keys per database, equal values (list order exact, score bits up to -0/0, stream IDs and field maps), PTTL within the interval the harness clock allows (+-6 ms), keys whose deadline provably passed before the restart finished must be absent, keys without TTL must have none. B: the same datasets (TTLs made long) through RdbEngine::save and load into a fresh engine, compared through the storage API. Non-trivial = >= 3 value types, a multi-byte length encoding and a TTL key, actually reloaded; distinct by dataset hash",
+        "generated datasets of 1..9 keys in databases 0/1/3/15: all six value types; string lengths and element counts at {0, 1, 2, 63, 64, 65, 300, 16383, 16384, 16385, 65535, 65536, 70000} (one big value per dataset); binary / empty / 64-byte / UTF-8 elements and names, names and values equal to the internal stream marker; scores +-inf, -0.0, subnormal, 1e308, equal scores; stream IDs at u64 edges with 1..8 fields; TTL none / 1000 s / 2^31 ms, 2^32 ms, 60 days, 10 and 100 years / 250..2500 ms. A: load through a client; in a third of the cases a first SAVE, then modifications through paths a change counter can forget (immediate BLPOP/BRPOP, SPOP, script, MULTI/EXEC, GETSET, PERSIST, ZPOPMIN, RENAME, LTRIM); then canonical dump + PTTL of every TTL key with clock brackets, SAVE (must answer OK), kill -9, generated downtime 0..1.5 s, restart on the same directory, dump again: same keys per database, equal values (list order exact, score bits up to -0/0, stream IDs and field maps), PTTL within the interval the harness clock allows (+-6 ms), keys whose deadline provably passed before the restart finished must be absent, keys without TTL must have none. B: the same datasets (TTLs made long) through RdbEngine::save and load into a fresh engine, compared through the storage API. Non-trivial = >= 3 value types, a multi-byte length encoding and a TTL key, actually reloaded; distinct by dataset hash",
     ));
     let findings = crate::findings::Findings::load();
     let mut active = crate::findings::Active::default();
